@@ -621,7 +621,8 @@ LOCAL_BUILDERS = {
 
 
 def g_new(ctx, heap):
-    if "F" in ctx.kinds and ctx.rng.random() < 0.04 and getattr(ctx, "constructors", True):
+    if ("F" in ctx.kinds and ctx.rng.random() < 0.04 and getattr(ctx, "constructors", True)
+            and getattr(ctx, "local_builders", True)):
         fn = ctx.rng.choice(sorted(LOCAL_BUILDERS))
         syms, nargs = LOCAL_BUILDERS[fn]
         ok = [s for s in ctx.syms if s in syms]
